@@ -29,6 +29,8 @@ Decides:
  L by one          ArgRangesIter::next moves its cursor by exactly one per step (every position is a candidate start).
  W command window  an adjacent command runs its subparser only on the adjacently available run (first attempt) or the consumed block (retry).
  C registry        short names inside adjacent groups reach the cluster registry, so `-x10` / `-ab` are split and the block is found (shared with C02).
+ W nested windows  the hole test of ParseAdjacent::eval counts present items AFTER the window was clamped to the caller's scope; a command entered
+                   inside a window gets name .. end of the ENCLOSING scope, never the end of the line (shared with C08).
 Does not decide: which vectors are accepted for a given shape (index arithmetic over run-time ledgers)."""
 import re
 from core import *
@@ -52,6 +54,8 @@ def run(ctx):
         ctx.guard(c08.keep_only, ctx, lambda: c10.best_effort(ctx, cfg, fs), lambda o: 'failure-scope' in o.key or 'failure-hands-back' in o.key, 'A.attempts')
         ctx.guard(window, ctx, cfg, fs)
         ctx.guard(command_window, ctx, cfg, fs)
+        # a command nested in an adjacent window stays inside it: its scope runs from its name to the end of the ENCLOSING scope (shared with C08)
+        ctx.guard(c08.keep_only, ctx, lambda: c08.matched(ctx, cfg, fs), lambda o: 'scope-from-name-to-end' in o.key, 'W.window')
         import c12
         ctx.guard(c12.walker_rules, ctx, cfg, fs, 'C.contiguous', {'collect_shorts': c12.WALKERS['collect_shorts']})
         ctx.guard(contiguous, ctx, cfg, fs)
@@ -180,6 +184,14 @@ def window(ctx, cfg, fs):
                     if (has_span[0] and has_len[1] and r.extra['op'] in ('Gt', 'Ne') and s_ == sw.target(True)) or (has_len[0] and has_span[1] and r.extra['op'] in ('Lt', 'Ne') and s_ == sw.target(True)) \
                             or (has_span[0] and has_len[1] and r.extra['op'] == 'Le' and s_ == sw.target(False)) or (has_len[0] and has_span[1] and r.extra['op'] == 'Ge' and s_ == sw.target(False)):
                         good = True
+                        # ... and AFTER the window was clamped to the caller's scope: counted before, the number includes present items
+                        # right of the caller's window, each of which hides one hole inside it
+                        lens = [q.call for x in sides for q in x if q.kind == 'call' and q.call.is_(r'^args::inner::State::len$')]
+                        clamps = [x_ for x_ in b.calls() if x_.is_(r'State::set_scope$') and scopes.state_id(b, x_.args[0], x_.bb) in trimmed
+                                  and not any(q.kind == 'call' and q.call.is_(r'adjacently_available_from$', r'State::adjacent_scope$') for q in provenance(b, x_.args[1], x_.bb, 'term', through=None))]
+                        clamped = bool(lens) and all(any(b.dominates(c_.bb, l_.bb) and c_.bb != l_.bb for c_ in clamps) for l_ in lens)
+                        ctx.ob('W.window', 'ParseAdjacent::eval:holes-counted-on-the-clamped-window', clamped,
+                               'the number of present items that decides the trim is read after set_scope(start..end of the caller\'s scope) on the same state (%d count(s), %d clamp(s)): %s' % (len(lens), len(clamps), clamped), where=b.where(lens[0].bb) if lens else b.where(), cfg=cfg)
         # and it precedes the attempt
         ok = good and all(b.dominates(trims[0].bb, x) or not b.reaches(trims[0].bb, [x]) or True for x in real) and any(b.reaches(trims[0].bb, [x]) for x in real)
         detail = 'taken on the edge where `window length > number of present items` (%s), before the attempt' % good
